@@ -11,6 +11,7 @@ import (
 	"os"
 	"os/exec"
 	"path/filepath"
+	"strconv"
 	"strings"
 	"sync"
 	"syscall"
@@ -262,6 +263,14 @@ func (d *Daemon) Start(extraEnv ...string) error {
 			c, err := net.DialTimeout("tcp", d.Addr, 200*time.Millisecond)
 			if err == nil {
 				c.Close()
+				if !listensOn(cmd.Process.Pid, d.port) {
+					// Somebody is listening there, and it is not this process (another worker's daemon took the port between
+					// its selection and this daemon's own listen): keep waiting - this daemon will find the address in use
+					// and exit, and the next attempt takes another port.
+					d.rc.Stats.Inc("daemon_port_answered_by_a_foreign_listener", 1)
+					time.Sleep(10 * time.Millisecond)
+					continue
+				}
 				d.Incarnation++
 				d.rc.Stats.Inc("daemon_processes_started", 1)
 				return nil
@@ -456,4 +465,40 @@ func (d *Daemon) Signer(client, localIP string) (signerAPI, error) {
 		return nil, err
 	}
 	return remoteSigner{cl: pb.NewSignerClient(cc), timeout: 20 * time.Second}, nil
+}
+
+// listensOn reports whether the process holds a listening TCP socket on the loopback port (from /proc: the socket inodes in
+// LISTEN state on that port, looked for among the process's descriptors).
+func listensOn(pid, port int) bool {
+	inodes := map[string]bool{}
+	for _, f := range []string{"/proc/net/tcp", "/proc/net/tcp6"} {
+		b, err := os.ReadFile(f)
+		if err != nil {
+			continue
+		}
+		for _, line := range strings.Split(string(b), "\n")[1:] {
+			fs := strings.Fields(line)
+			if len(fs) < 10 || fs[3] != "0A" {
+				continue
+			}
+			if i := strings.LastIndex(fs[1], ":"); i >= 0 {
+				if p, err := strconv.ParseUint(fs[1][i+1:], 16, 32); err == nil && int(p) == port {
+					inodes[fs[9]] = true
+				}
+			}
+		}
+	}
+	if len(inodes) == 0 {
+		return false
+	}
+	ents, err := os.ReadDir(fmt.Sprintf("/proc/%d/fd", pid))
+	if err != nil {
+		return false
+	}
+	for _, e := range ents {
+		if l, err := os.Readlink(fmt.Sprintf("/proc/%d/fd/%s", pid, e.Name())); err == nil && strings.HasPrefix(l, "socket:[") && inodes[strings.TrimSuffix(strings.TrimPrefix(l, "socket:["), "]")] {
+			return true
+		}
+	}
+	return false
 }
